@@ -677,6 +677,7 @@ func main() {
 	run.Assume("flag sets are closed under CLEANSTACK=>P2SH+WITNESS, WITNESS=>P2SH (Core asserts; gocoin panics by design) and TAPROOT=>WITNESS")
 	run.Assume("taproot layers of the reference are calibrated by BIP340 vectors, BIP341 wallet vectors recalled from memory (accepted only on exact 256-bit matches) and hand-derived cases; bip341_script_tests.json is empty in this tree")
 	minTriples := run.N(25000, 800000)
+	os.RemoveAll(tmp) // Finish exits the process: deferred clean-up would not run
 	run.Finish("each case = one (scriptSig, scriptPubKey, witness, amount, tx, idx, flags) tuple judged by refscript and by script.VerifyTxScript (boolean verdicts compared, panics/fatal errors are violations); distinct_nontrivial = distinct (template, mutation, flags) triples",
 		"evaluations", "triples", minTriples)
 }
